@@ -2,6 +2,7 @@ package main
 
 import (
 	"fmt"
+	"strconv"
 	"os"
 	"path/filepath"
 	"sort"
@@ -65,6 +66,9 @@ func newVerifier(tier string) (*Verifier, error) {
 			body := strings.TrimPrefix(strings.Trim(c.List[1].Atom, "\""), "strlit:")
 			i := strings.Index(body, " ")
 			sym, lit := body[:i], body[i+1:]
+			if u, uerr := strconv.Unquote("\"" + lit + "\""); uerr == nil {
+				lit = u
+			}
 			V.U.strlits[lit] = sym
 			V.U.strOrder = append(V.U.strOrder, lit)
 			V.U.Sigs[sym] = &Sig{Name: sym, Res: "Str"}
@@ -218,6 +222,12 @@ func (V *Verifier) queryText(o *Oblig) string {
 			fmt.Fprintf(&body, "(assert (not %s))\n", o.Goal)
 		}
 		inst := V.instantiateUnfolds(body.String(), 1)
+		if strings.Contains(body.String(), "(Render ") {
+			// rendering obligations compare concatenations of literal chunks:
+			// decompose every literal into its characters so that the
+			// comparison does not depend on how the text is chunked
+			inst += V.U.strDecompFacts()
+		}
 		b.WriteString(V.relevantAxioms(inst + body.String()))
 		b.WriteString(inst)
 		b.WriteString(body.String())
